@@ -229,7 +229,18 @@ impl_envelope_encodable!(bool);
 
 // Floating point types
 impl_envelope_encodable!(f64);
-impl_envelope_encodable!(f32);
+
+impl From<f32> for Envelope {
+    /// Converts this value into an envelope.
+    ///
+    /// The value is widened to `f64` first (an exact conversion) so that dCBOR
+    /// numeric reduction is applied exactly: converting an `f32` to CBOR
+    /// directly leaves integral values of 2^32 and above unreduced and is off
+    /// by one for negative integral values beyond 2^24.
+    fn from(value: f32) -> Self {
+        Envelope::new_leaf(value as f64)
+    }
+}
 
 // CBOR types
 impl_envelope_encodable!(dcbor::ByteString);
